@@ -48,7 +48,7 @@ def st_case(draw):
     if fam == 'delete':
         target = draw(st.sampled_from(['array', 'array', 'ragged', 'ragged', 'plaindir', 'file', 'missing']))
         return {'fam': 'delete', 'target': target, 'func': draw(st.sampled_from(['delete_array', 'delete_raggedarray'])),
-                'form': draw(st.sampled_from(['obj', 'str', 'path', 'stale-obj'])),
+                'form': draw(st.sampled_from(['obj', 'str', 'path', 'stale-obj', 'symlink', 'symlink-path', 'dot'])),
                 'foreign': draw(st.lists(st_foreign(target == 'ragged'), max_size=3)), 'meta': draw(st.booleans())}
     occ = draw(st.sampled_from(OCCUPANTS))
     return {'fam': 'create', 'func': draw(st.sampled_from(CREATORS)), 'overwrite': draw(st.booleans()), 'occupant': occ,
@@ -212,6 +212,22 @@ def _delete(spec, path, parent, outside, occ, fnames, before_p, before_o, out):
     out.cls('form:' + form)
     tag = f"{spec['func']}:{occ}"
     arg = path if form == 'str' else pathlib.Path(path)
+    alias, oldcwd = form in ('symlink', 'symlink-path', 'dot') and os.path.isdir(path), None
+    if form in ('symlink', 'symlink-path', 'dot') and not alias:
+        form = 'str'
+    if alias:
+        # the array named through another spelling of its directory: a symbolic link to it (kept in a directory of its own), or
+        # '.' with the array directory as the working directory.  Refusing such a call is fine; a call that returns normally has
+        # deleted the array ('after a successful delete nothing of the array remains')
+        if form == 'dot':
+            oldcwd = os.getcwd()
+            os.chdir(path)
+            arg = '.'
+        else:
+            ldir = os.path.join(os.path.dirname(parent), 'links')
+            os.mkdir(ldir)
+            os.symlink(path, os.path.join(ldir, 'alias.darr'))
+            arg = os.path.join(ldir, 'alias.darr') if form == 'symlink' else pathlib.Path(ldir) / 'alias.darr'
     if form == 'stale-obj':
         if not right:
             form = 'str'
@@ -232,6 +248,9 @@ def _delete(spec, path, parent, outside, occ, fnames, before_p, before_o, out):
         exc = None
     except Exception as e:
         exc = e
+    finally:
+        if oldcwd is not None:
+            os.chdir(oldcwd)
     after_p = snapshot(parent)
     if not right:
         out.cls('delete:wrongkind->TypeError')
@@ -254,6 +273,9 @@ def _delete(spec, path, parent, outside, occ, fnames, before_p, before_o, out):
             out.viol('foreign-content-no-oserror', tag, f'expected OSError, got {type(exc).__name__ if exc else "no exception"}: {exc}')
     else:
         out.cls('delete:success')
+        if alias and exc is not None:
+            out.cls('delete:alias-spelling-refused')
+            return
         if exc is not None:
             out.viol('delete-raised', f'{tag}:{type(exc).__name__}', f'{type(exc).__name__}: {exc}')
             return
@@ -446,6 +468,10 @@ def grid():
             for where in (['top'] if occ != 'ragged' else ['top', 'values', 'indices']):
                 yield {'fam': 'create', 'func': func, 'overwrite': True, 'occupant': occ, 'meta': True, 'newmeta': False, 'fail': fail,
                        'foreign': [{'kind': fk, 'where': where, 'n': 0}]}
+    for target, func in (('array', 'delete_array'), ('ragged', 'delete_raggedarray'), ('array', 'delete_raggedarray'), ('ragged', 'delete_array'), ('plaindir', 'delete_array')):
+        for form in ('symlink', 'symlink-path', 'dot'):
+            for fk in (None, 'file', 'dir'):
+                yield {'fam': 'delete', 'target': target, 'func': func, 'form': form, 'meta': fk is None, 'foreign': [{'kind': fk, 'where': 'top', 'n': 0}] if fk else []}
     for target, func in (('array', 'delete_array'), ('ragged', 'delete_raggedarray')):
         for n in (0, 1):
             yield {'fam': 'delete', 'target': target, 'func': func, 'form': 'stale-obj', 'meta': True, 'foreign': [{'kind': 'file', 'where': 'top', 'n': n}][:n] if n == 0 else [{'kind': 'file', 'where': 'top', 'n': 0}]}
